@@ -82,6 +82,8 @@ type rawCfg struct {
 }
 
 type rawScn struct {
+	dialer   mangos.Dialer
+	answered int
 	force string        // target (routed) / origin (BUS forwarding) named by the step, instead of a random live pipe
 	el    time.Duration // virtual time elapsed (absolute "advto" steps of TLC-generated scenarios)
 	s     *sim.S
@@ -291,6 +293,26 @@ func (c *rawScn) step(st string) {
 		}
 		c.pipes[p.Name] = p
 		s.Net.Listener("l1").Offer(p)
+	case "predial":
+		// an asynchronous dialer whose connection attempt stays in progress until "ansconn": what arrives then is
+		// decided by the protocol in the state it is in by then (a closed one refuses)
+		if c.dialer == nil {
+			d, err := c.sock.NewDialer(s.Net.Addr("d1"), map[string]interface{}{mangos.OptionDialAsynch: true,
+				mangos.OptionReconnectTime: 5000 * time.Second, mangos.OptionMaxReconnectTime: time.Duration(0)})
+			if err != nil {
+				break // (the socket of this scenario is closed already: no dialer, no attempt)
+			}
+			c.dialer = d
+			_ = d.Dial()
+		}
+	case "ansconn":
+		if td := s.Net.Dialer("d1"); td != nil && td.Dials > c.answered {
+			c.answered++
+			c.npipe++
+			p := s.Net.NewPipe(fmt.Sprintf("p%d", c.npipe))
+			c.pipes[p.Name] = p
+			td.Answer(p, nil)
+		}
 	case "drop":
 		if p := c.pipes[arg(1)]; p != nil && !p.IsClosed() {
 			s.Rec.Emit("drop", "p", p.Name)
@@ -454,6 +476,10 @@ func runRaw(t *testing.T, cfg rawCfg, seed int64) (sim.Result, rec.Ev) {
 				p.Release()
 			}
 		}
+		if td := s.Net.Dialer("d1"); td != nil && td.Dials > c.answered {
+			c.answered++
+			td.Answer(nil, mangos.ErrClosed) // the attempt still in progress ends
+		}
 		c.step("adv 600s")
 		s.Wait()
 		g := sim.Census()
@@ -588,6 +614,10 @@ func rawScripted(p rawProto) []rawCfg {
 		out = append(out, rawCfg{P: p, TTL: 8, SQ: 2, RQ: 2, Steps: []string{"connlinger", "send ok", "drop p1", "releasel p1", "conn", "send ok", "send ok", "conn", "send ok"}},
 			rawCfg{P: p, TTL: 8, SQ: 2, RQ: 2, Steps: []string{"conn", "connlinger", "send ok", "send ok", "send ok", "drop p2", "send ok", "releasel p2", "send ok", "send ok", "conn", "send ok"}})
 	}
+	// a connection attempt that completes after the socket was closed: the closed protocol refuses it (nothing of the
+	// closed socket remains); one that completes while the socket is open is a connection like any other
+	out = append(out, rawCfg{P: p, TTL: 8, SQ: 2, RQ: 2, Steps: []string{"predial", "sclose", "ansconn", "adv 1s"}},
+		rawCfg{P: p, TTL: 8, SQ: 2, RQ: 2, Steps: []string{"conn", "predial", "send ok", "ansconn", "send ok", "inj p2 ok", "recv", "sclose"}})
 	out = append(out, rawCfg{P: p, TTL: 8, SQ: 2, RQ: 2, Steps: []string{"conn", "recv", "rq 5", "inj p1 ok", "recv", "rq 1", "inj p1 ok",
 		"recv", "rq 1", "inj p1 ok", "recv", "recv", "rq 3", "inj p1 ok", "inj p1 ok"}})
 	return out
